@@ -298,6 +298,10 @@ class PrefixExpression(FilterExpression):
         super().__init__()
 
     def __str__(self) -> str:
+        # A comparison that is negated was written in parentheses. Without them
+        # the operator would apply to the left operand of the comparison only.
+        if isinstance(self.right, InfixExpression) and not self.right.logical:
+            return f"{self.operator}({self.right})"
         return f"{self.operator}{self.right}"
 
     def __eq__(self, other: object) -> bool:
